@@ -170,6 +170,7 @@ func runScenario(rep *emit.Report, sch *crypto.Scheme, sc scenario) (string, str
 		case "F":
 			c.FlushRounds(o.round)
 			opsS = append(opsS, fmt.Sprintf("CFlush %d", o.round))
+			checkRecorded(c, fail, n)
 			// M: nothing at or below the flushed round survives
 			for _, r := range c.Rounds() {
 				if r.Round <= o.round {
@@ -216,6 +217,7 @@ func runScenario(rep *emit.Report, sch *crypto.Scheme, sc scenario) (string, str
 	}
 	fr, fk := dump(c)
 	rep.Count(fmt.Sprintf("cache/%s", strings.SplitN(sc.name, ":", 2)[0]))
+	checkRecorded(c, fail, len(sc.ops))
 	if refusals > 0 {
 		rep.Count("cache/with-evict-missing-refusal")
 	}
@@ -231,6 +233,44 @@ func runScenario(rep *emit.Report, sch *crypto.Scheme, sc scenario) (string, str
 	}
 	return fmt.Sprintf("CCase %s %s %s %s", emit.List(opsS), emit.List(obsS), fr, fk),
 		fmt.Sprintf("CCase %s (%d ops, shared=%v, max live %d, max rcvd %d, max rounds %d, refusals %d)", sc.name, len(sc.ops), sc.shared, maxLive, maxRcvd, maxRounds, refusals)
+}
+
+// checkRecorded (M): the ids recorded for a signer index, rcvd[idx], are exactly the round caches that
+// hold a partial of that index, each once: this is what the per-signer limit counts.
+func checkRecorded(c *beacon.VerifCache, fail func(class, what string, extra map[string]interface{}), n int) {
+	holds := map[int]map[string]bool{}
+	for _, r := range c.Rounds() {
+		for _, i := range r.Signers {
+			if holds[i] == nil {
+				holds[i] = map[string]bool{}
+			}
+			holds[i][r.ID] = true
+		}
+	}
+	keys := map[int]bool{}
+	for _, k := range c.RcvdKeys() {
+		keys[k] = true
+	}
+	for i := range holds {
+		keys[i] = true
+	}
+	for k := range keys {
+		rec := c.Rcvd(k)
+		seen := map[string]bool{}
+		bad := len(rec) != len(holds[k])
+		for _, id := range rec {
+			if seen[id] || !holds[k][id] {
+				bad = true
+			}
+			seen[id] = true
+		}
+		if bad {
+			fail("C12-recorded-ids-differ-from-round-caches",
+				fmt.Sprintf("signer index %d is recorded with %d ids but holds partials in %d round caches: the per-signer limit no longer counts what the signer occupies", k, len(rec), len(holds[k])),
+				map[string]interface{}{"op": n, "index": k, "recorded": len(rec), "round_caches_holding_it": len(holds[k])})
+			return
+		}
+	}
 }
 
 func prevOf(k int) []byte { return []byte{byte(k >> 8), byte(k), 0xAB} }
@@ -258,6 +298,18 @@ func corpus() []scenario {
 		ops3 = append(ops3, op{kind: "A", idx: 1, round: 5, prev: prevOf(k)}, op{kind: "A", idx: 2, round: 5, prev: prevOf(k)})
 	}
 	out = append(out, scenario{name: "corpus:two-signers-share-every-id", shared: true, ops: ops3})
+	// the arrival order of a member racing ahead: its partial for the round being aggregated first,
+	// then many partials for later rounds of the window, then the beacon of that round is stored
+	// (FlushRounds); repeated for a few beacons. The ids recorded after the flushed one must survive.
+	var ops4 []op
+	for h := uint64(10); h < 15; h++ {
+		ops4 = append(ops4, op{kind: "A", idx: 1, round: h + 1, prev: prevOf(int(h))})
+		for k := 0; k < capN-1; k++ {
+			ops4 = append(ops4, op{kind: "A", idx: 1, round: h + 4, prev: []byte{byte(h), byte(k >> 8), byte(k), 0xCD}})
+		}
+		ops4 = append(ops4, op{kind: "F", round: h + 1})
+	}
+	out = append(out, scenario{name: "corpus:flush-after-partials-for-later-rounds", ops: ops4})
 	return out
 }
 
